@@ -182,6 +182,9 @@ def tref_profile(rng, layers: int, kind='random', centers=None) -> np.ndarray:
   if kind == 'isothermal_top':     # the two uppermost layers equal, varying below
     t = 215.0 + 70.0 * np.maximum(centers - centers[min(1, layers - 1)], 0.0) + 8.0 * rng.standard_normal(layers) * (np.arange(layers) > 1)
     return t
+  if kind == 'bump':               # non-constant with EQUAL top and bottom values (symmetric bump)
+    c_ = (np.arange(layers) + 0.5) / layers        # symmetric in the layer index, whatever the spacing
+    return 230.0 + 240.0 * c_ * (1.0 - c_)
   if kind == 'plateau_cooling':    # a plateau on top, then monotonically colder
     return 290.0 - 60.0 * np.maximum(centers - 0.4, 0.0)
   return 250.0 + 25.0 * rng.standard_normal(layers)
